@@ -1122,6 +1122,68 @@ def post_stats(ctx, cases, result):
     return terms, idx
 
 
+# ---------------------------------------------------------------- application: connection statistics epoch, forced interleavings
+CONN_FILES = ["cmd/application/conns.go", "cmd/application/connectingStats.go"]
+
+
+def connstats_job(ctx):
+    """every accounting method of connStats (listed from the method declarations of the checkout) against Reset / PrintAndReset with the
+    epoch change forced in front of every lock the accounting takes; lock types instrumented through an overlay copy"""
+    src = ""
+    for rel in CONN_FILES:
+        with open(os.path.join(lib.REPO, rel)) as f:
+            src += f.read() + "\n"
+    a = re.findall(r"^func \(\w+ \*connStats\) (\w+)\(\w+ uint, \w+ string, \w+ bool\)\s*\{", src, re.M)
+    b = re.findall(r"^func \(\w+ \*connStats\) (\w+)\(\w+ uint, \w+ string, \w+ string\)\s*\{", src, re.M)
+    names = os.path.join(lib.BUILD, "c11_inst_%d_csnames_test.go" % os.getpid())
+    with open(names + ".tmp", "w") as f:
+        f.write("//go:build verif\n\npackage main\n\nvar csOps = map[string]func(*connStats, uint, string, bool){\n"
+                + "".join('\t"%s": (*connStats).%s,\n' % (n, n) for n in a) + "}\n\nvar csOpsTp = map[string]func(*connStats, uint, string, string){\n"
+                + "".join('\t"%s": (*connStats).%s,\n' % (n, n) for n in b) + "}\n")
+    os.replace(names + ".tmp", names)
+    extra, nrepl = {"cmd/application/zz_verif_sync.go": inst_shim("main")}, 0
+    for rel in CONN_FILES:
+        inst, n = instrument_sync(rel)
+        extra[rel] = inst
+        nrepl += n
+    import time
+    t0 = time.time()
+    files = {"zz_verif_driver_test.go": "c11/connstats_sched_driver_test.go", "zz_verif_names_test.go": names, "zz_verif_view_test.go": inst_view("main")}
+    r = ctx.go_inpkg("cmd/application", ".", files, "^TestVerifC11ConnStatsSched$", [{"asn": 64500, "cc": "US"}], extra_overlay=extra, timeout=300)
+    TIMES["go:main:ConnStatsSched"] = round(time.time() - t0, 1)
+    return r + (nrepl, len(a) + len(b))
+
+
+def post_connstats(ctx, result):
+    rc, out, res, nrepl, nops = result
+    terms, idx = [], []
+    if res is None or len(res) != 1:
+        if "[build failed]" in out or "[setup failed]" in out:
+            ctx.cov["connstats_sched"] = "instrumented copy does not build: " + out[-400:]
+            return None
+        fail_driver(ctx, "connstats-sched", out)
+        return None
+    o = res[0]
+    if nops < 5 or len(o["runs"]) < 50 or nrepl < 1:
+        ctx.broken("generator-selftest", "connStats lane: %d accounting methods found, %d lock types instrumented, %d runs" % (nops, nrepl, len(o["runs"])))
+    for r in o["runs"]:
+        ctx.count(("connstats", r["op"], r["house"], r["v4"], tuple(r["sched"])), nontrivial=True, kind="connstats-sched/%s/%s" % (r["house"], r["out"]))
+        if r["out"] != "ok":
+            what = {"panic": "panicked in the connection's goroutine (nothing recovers it: the station dies)", "hang": "did not get on",
+                    "leak": "returned with the statistics lock held (the next epoch and every later connection of a known country stop)"}[r["out"]]
+            ctx.fail("%s:connstats-epoch/%s" % (r["out"], r["op"]),
+                     "connection statistics epoch against connection accounting, forced schedule: connStats.%s(asn 64500, \"US\", %s) twice || %s: %s: %s; "
+                     "schedule (0: accounting runs its next lock-protected region, 1: the epoch change does) %s"
+                     % (r["op"], "IPv4" if r["v4"] else "IPv6", "Reset()" if r["house"] == "reset" else "PrintAndReset()", what, r["detail"][:300], r["sched"]),
+                     {"entry": "connstats-epoch", "op": r["op"], "housekeeping": r["house"], "v4": r["v4"], "sched": r["sched"], "observed": r})
+        terms.append("AStats ([TConn %s 64500 2%%nat; %s 1%%nat], [%s]%%nat, [%s], %d, [(None, None, None); (None, None, None)])" % (
+            gbool(r["v4"]), "TConnReset" if r["house"] == "reset" else "TConnTicker", "; ".join(str(x) for x in r["sched"]),
+            "; ".join(str(x) for x in r["sections"]), {"ok": 0, "panic": 1}.get(r["out"], 2)))
+        idx.append({"entry": "connstats-epoch", "observed": r})
+    ctx.cov["connstats_sched"] = {"lock_types_instrumented": nrepl, "accounting_methods": o["ops"], "schedules": len(o["runs"])}
+    return terms, idx
+
+
 # ---------------------------------------------------------------- registrar: DNS responder under a burst (child process)
 def gen_burst(ctx, dns_pkts):
     pk = [{"pkt": p.hex(), "has_plain": pl is not None, "plain": (pl or b"").hex(), "resplen": rl} for _, p, pl, rl in dns_pkts if len(p) <= 1400]
@@ -1850,6 +1912,7 @@ def run_(ctx):
                               [{"steps": st} for _, st in seqs], extra=EXPORT_SHIM),
         "conc": lambda: go_run(ctx, "pkg/station/lib", "lib", "station_driver_test.go", "TestVerifC11StationConc", conc_cases, timeout=300),
         "stats": lambda: stats_job(ctx, ss_cases),
+        "connstats": lambda: connstats_job(ctx),
         "burst": lambda: go_run(ctx, "pkg/registrars/dns-registrar/responder", "responder", "responder_driver_test.go", "TestVerifC11ResponderBurst", burst_cases, timeout=300),
         "dtlsconn": lambda: go_run(ctx, "pkg/transports/connecting/dtls", "dtls", "dtls_driver_test.go", "TestVerifC11DtlsConnect", dc_cases),
         "prefix-dump": lambda: go_run(ctx, "pkg/transports/wrapping/prefix", "prefix", "prefix_driver_test.go", "TestVerifC11Prefix", [{"op": "dump"}]),
@@ -1920,9 +1983,12 @@ def run_(ctx):
             terms.append(t)
             origin.append(("stats-epoch", o))
         required += STATS_KINDS
-    post_burst(ctx, "plain", burst_cases, results["burst"])
-    if "burst-race" in results:
-        post_burst(ctx, "race", burst_cases, results["burst-race"])
+    cs = post_connstats(ctx, results["connstats"])
+    if cs is not None:
+        for t, o in zip(*cs):
+            terms.append(t)
+            origin.append(("connstats-epoch", o))
+        required += ["connstats-sched/reset/ok", "connstats-sched/printreset/ok"]
     post_conc(ctx, "plain", results["conc"])
     if "conc-race" in results:
         post_conc(ctx, "race", results["conc-race"])
@@ -1933,6 +1999,10 @@ def run_(ctx):
     if res:
         add("dns", post_dns(ctx, dns_pkts, res), dns_pkts)
         ctx.sample({"entry": "dns responder", "pkt": dns_pkts[0][1].hex(), "observed": {k: res[0][k] for k in ("p_err", "kind", "rflags")}})
+    # after the per-packet oracle, so that a concrete failing packet is reported before the crash of the burst
+    post_burst(ctx, "plain", burst_cases, results["burst"])
+    if "burst-race" in results:
+        post_burst(ctx, "race", burst_cases, results["burst-race"])
     if os.environ.get("VERIF_C11_RACE", "1") != "1":
         required = [k for k in required if "/race/" not in k]
     ctx.require_kinds(required)
